@@ -4,7 +4,7 @@ import io
 
 from hypothesis import strategies as st
 
-from gen.common import boundary_ints
+from gen.common import boundary_ints, weighted
 from oracles import refmerkle as ref
 from vlib.core import SubCheck, Violation
 
@@ -336,7 +336,9 @@ SIZES = [1, 2, 3, 4, 5, 7, 8, 9, 15, 16, 17, 31, 33]
 
 
 def s_block():
-    spec = st.tuples(st.integers(0, 10 ** 6), st.integers(1, 3), st.integers(1, 3), st.integers(0, 110),
+    # one transaction in forty has an input or output count on / above the compact-size escape (252 .. 300), legacy or segwit
+    counts = weighted((39, st.integers(1, 3)), (1, st.sampled_from([252, 253, 254, 256, 257, 300])))
+    spec = st.tuples(st.integers(0, 10 ** 6), counts, counts, st.integers(0, 110),
                      st.sampled_from([0, 0, 0, 1])).map(list)
     n = st.one_of(st.sampled_from(SIZES), st.sampled_from(SIZES[:9]), st.integers(1, 120))
     txs = n.flatmap(lambda k: st.lists(spec, min_size=k, max_size=k))
